@@ -29,7 +29,7 @@ def run(ctx):
         "record.id coherence of the registry, a patch touching exactly the named fields of exactly the matched record."
     )
     ctx.assumptions = ["uuid4() results are distinct opaque values", "sequences longer than the analysed scenarios are covered only by the structural ownership rules"]
-    ctx.rule("registry/writers", "the private registry dict is stored to / mutated only in match_incoming and save")
+    ctx.rule("registry/writers", "the private registry dict is stored to / mutated only by match_incoming and save (directly or through private helpers reachable only from them)")
     ctx.rule("registry/key-coherence", "after every analysed scenario each registry key is the id of the record stored under it")
     ctx.rule("lookup/read-only", "match_attr, match_ip_incoming, match_uuid, all, __len__ neither store nor call anything that stores")
     ctx.rule("id/single-writer", "Repeater.id is assigned only in Repeater.__init__ (repository-wide)")
@@ -59,10 +59,26 @@ def run(ctx):
                 for t in n.targets:
                     if "__repeaters" in ast.unparse(t):
                         writers.add(name)
-    ctx.ob("registry/writers", sci.qualname, writers == {"match_incoming", "save"}, f"methods writing the registry: {sorted(writers)}", sci.loc)
-    # lookups are read-only: no writer reachable
     calls = {name: {c.func.attr for c in ast.walk(fi.node) if isinstance(c, ast.Call) and isinstance(c.func, ast.Attribute) and isinstance(c.func.value, ast.Name) and c.func.value.id == "self"}
              for name, fi in sci.methods.items()}
+    # a private helper that writes stands for the public methods it is reachable from: the rule is about the ENTRY POINTS through
+    # which the registry can change
+    entry_writers, frontier, seen_w = set(), set(writers), set()
+    while frontier:
+        w_ = frontier.pop()
+        if w_ in seen_w:
+            continue
+        seen_w.add(w_)
+        if w_.startswith("_") and not (w_.startswith("__") and w_.endswith("__")):
+            callers = {m for m, cs in calls.items() if w_ in cs or w_.lstrip("_") in {c.split("__")[-1] for c in cs if c.startswith("_")}}
+            frontier |= callers - seen_w
+            if not callers:
+                entry_writers.add(w_)
+        else:
+            entry_writers.add(w_)
+    ctx.ob("registry/writers", sci.qualname, entry_writers == {"match_incoming", "save"},
+           f"entry points through which the registry is written: {sorted(entry_writers)}" + (f" (through the private helper(s) {sorted(w for w in writers if w not in entry_writers)})" if writers - entry_writers else ""), sci.loc)
+    # lookups are read-only: no writer reachable
     def reaches_writer(m, seen=()):
         if m in writers:
             return True
